@@ -247,14 +247,14 @@ def gen(rnd, *, core=False, res_choices=(60, 60, 30, 15), subslot=True, alap=Non
                 bs.append((s, rnd.choice([res, 2 * res, 6 * 60, 24 * 60, 3 * res, 2 * 24 * 60, 3 * 24 * 60])))
             r["bookings"] = bs
         if limits and rnd.random() < 0.3:
-            r["limits"] = {rnd.choice(["dailymax", "weeklymax"]): rnd.choice([1, 2, 3, 4, 6])}
+            r["limits"] = {rnd.choice(["dailymax", "weeklymax"]): rnd.choice([1, 2, 3, 4, 6, 1.5, 2.5, 7.5, 3.75])}   # fractions: seeded change C05-d rounded them
         resources.append(r)
     m["resources"] = resources
     m["groups"] = []
     if groups and n_res >= 2 and rnd.random() < group_p:
         g = {"id": "grp", "parent": None}
         if limits and rnd.random() < 0.5:
-            g["limits"] = {rnd.choice(["dailymax", "weeklymax"]): rnd.choice([2, 4, 6, 8])}
+            g["limits"] = {rnd.choice(["dailymax", "weeklymax"]): rnd.choice([2, 4, 6, 8, 2.5, 7.5])}
         m["groups"].append(g)
         members = resources if rnd.random() < 0.6 else resources[:max(1, n_res - 1)]
         for r in members:
@@ -358,7 +358,7 @@ def gen(rnd, *, core=False, res_choices=(60, 60, 30, 15), subslot=True, alap=Non
                 others = [r["id"] for r in resources if r["id"] not in t["alloc"]]
                 t["alt"] = rnd.sample(others, 1 if rnd.random() < 0.7 else min(2, len(others)))
             if tasklimits and rnd.random() < 0.2:
-                t["limits"] = {rnd.choice(["dailymax", "weeklymax"]): rnd.choice([1, 2, 3, 4])}
+                t["limits"] = {rnd.choice(["dailymax", "weeklymax"]): rnd.choice([1, 2, 3, 4, 1.5, 3.5])}
         if rnd.random() < prios:
             t["priority"] = rnd.choice([1, 100, 300, 500, 700, 1000])
         cands = [x for x in tasks if x["path"] != t["path"][:len(x["path"])]]  # not own ancestors
@@ -370,6 +370,8 @@ def gen(rnd, *, core=False, res_choices=(60, 60, 30, 15), subslot=True, alap=Non
                     d["gap_min"] = rnd.choice([res, 2 * res, 24 * 60, 90, 45, 48 * 60]) if subslot else rnd.choice([res, 2 * res, 24 * 60, 7 * 24 * 60])
                 if onstart and rnd.random() < 0.15 and not m["alap"]:
                     d["onstart"] = True
+                    if rnd.random() < 0.3:
+                        deps.append({"to": x["path"]})     # the same predecessor ALSO finish-to-start: two different constraints on one pair
                 deps.append(d)
             t["deps"] = deps
         elif pins and not m["alap"] and rnd.random() < 0.2:
@@ -649,6 +651,8 @@ def render(m, refrnd=None, precrnd=None, extra_header=None, scenarios=None, trai
             L.append("%s  allocate %s" % (i, a))
         if "priority" in t:
             L.append("%s  priority %d" % (i, t["priority"]))
+        if t.get("task_alap"):
+            L.append("%s  scheduling alap" % i)      # task-level ALAP inside an ASAP project (only used by metamorphic checks)
         if "start" in t:
             L.append("%s  start %s" % (i, fmt_dt(t["start"])))
         if "end" in t:
